@@ -84,6 +84,8 @@ fn run_case(case: &Case) -> CaseResult {
         // C01 says nothing about scans succeeding; the known tree conflict (listed under C06) is
         // excluded here by construction and counted.
         Err(f) if f.signature == SIG_TREE_CONFLICT => Ok(Obs::trivial().label("excluded-known:tree-conflict-after-rewind")),
+        // likewise the known stale-subtree-root finding (C06): the sync round cannot start any more
+        Err(f) if f.signature == SIG_STALE_SUBTREE_ROOT => Ok(Obs::trivial().label("excluded-known:stale-subtree-root-after-reorg")),
         r => r,
     }
 }
@@ -150,6 +152,9 @@ fn run_case_inner(case: &Case) -> CaseResult {
         .label_if(f.spend_before_receipt, "spend-before-receipt")
         .label_if(f.rewind_removed_wallet_tx, "rewind-removes-wallet-tx")
         .label_if(f.big_batch, "batch>102")
+        .label_if(h.chain.base_sizes != [0, 0, 0], "non-empty-birthday-frontier")
+        .label_if(h.chain.crossed_shard_boundary(), "shard-boundary-crossed")
+        .label_if(h.flags.subtree_roots_put > 0, "subtree-roots-put")
         .label_if(f.early_spend_in_big_out_of_order_batch, "batch>102-above-gap-with-early-spend-of-gap-note")
         .label_if(deep, "chain>100")
         .label_if(st.live_orphan_states > 0, "live-orphan-state")
